@@ -48,6 +48,13 @@ def main(tier, replay, t0):
                 lost += 1
                 host = [s for s in spec.host_structs() if s in spec.emitted_structs()]
                 diags = camp.rustc.get("%s/%s/m.rs" % (c.id, x["id"]), {}).get("diags", [])
+                if opt.get("se"):
+                    # serde's own limit (arrays above 32 elements) is C01's recorded finding and
+                    # says nothing about the encase image
+                    import re as _re
+                    diags = [d for d in diags if not _re.search(
+                        r"`\[[^`]*; (3[3-9]|[4-9]\d|\d{3,})\]: (serde::)?(Serialize|Deserialize)",
+                        d.get("message") or "")]
                 permitted = all("derive(Pod) was applied to a type with padding" in
                                 (d.get("message") or "") or "does not match WGSL" in
                                 (d.get("message") or "") for d in diags)
